@@ -101,7 +101,14 @@ func NewWriter(w io.Writer, opts ...Option) *Writer {
 	return &Writer{w: w, schema: cfg.schema, stream: verifStreams}
 }
 
+// VerifWriteFault (harness hook): when it returns true the next Write fails (an I/O or encoding fault inside the
+// IPC writer), leaving the writer as it was.
+var VerifWriteFault func() bool
+
 func (w *Writer) Write(rec arrow.Record) error {
+	if VerifWriteFault != nil && VerifWriteFault() {
+		return errors.New("arrow/ipc: injected write failure")
+	}
 	if w.closed {
 		return errors.New("arrow/ipc: writer is closed")
 	}
